@@ -1,7 +1,7 @@
 (** C06 — property theorems only: statement, [exact] of a lemma proved in Proofs/C06_Opt.v, [Print Assumptions].
     Model: Model/C06_Opt.v.  [ev] is the problem's evaluation function (obj, ineqcv, eqcv) and is universally
     quantified everywhere; [cand] is the candidate set (decn_space), [k] the subset size (ndecn). *)
-From PV Require Import Lib.Common Model.C06_Opt Proofs.C06_Opt.
+From PV Require Import Lib.Common Model.C06_Opt Proofs.C06_Opt Gen.C06_Kernel Model.C06_Machine Proofs.C06_Kernel Proofs.C06_Scale.
 Local Open Scope Z_scope.
 
 (** *** SortingSubsetOptimizationAlgorithm *)
@@ -169,6 +169,169 @@ Proof.
 Qed.
 Print Assumptions C06_monitor_sound.
 
+(** *** kernel expressions regenerated from the source on every run (Gen/C06_Kernel.v, produced by harness/translate/c06_kernel.py) *)
+(** the generated expressions ARE the ones the model is built from (all links by conversion: a flipped comparison, a swapped
+    argument pair, [obj * obj_wt] as sort key, another slice bound, ... and this theorem no longer compiles) *)
+Theorem C06_kernel_is_model :
+  (forall ev s w best ij, step ev s w best ij =
+     let r := ev (prop s w ij) in
+     if k_sd_better_cv (cv r) (cv (snd best)) then (Some ij, r)
+     else if k_sd_better_score (cv r) (cv (snd best)) (score r) (score (snd best)) then (Some ij, r) else best) /\
+  (forall ev s w best ij, step ev s w best ij =
+     let r := ev (prop s w ij) in
+     if k_ssd_better_cv (cv r) (cv (snd best)) then (Some ij, r)
+     else if k_ssd_better_score (cv r) (cv (snd best)) (score r) (score (snd best)) then (Some ij, r) else best) /\
+  (forall r, k_sd_gscore (e_obj r) = score r /\ k_sd_pscore (e_obj r) = score r /\ k_sd_gcv (e_ineq r) (e_eq r) = cv r /\ k_sd_pcv (e_ineq r) (e_eq r) = cv r) /\
+  (forall r, k_ssd_gscore (e_obj r) = score r /\ k_ssd_pscore (e_obj r) = score r /\ k_ssd_gcv (e_ineq r) (e_eq r) = cv r /\ k_ssd_pcv (e_ineq r) (e_eq r) = cv r) /\
+  (forall s w i j, k_sd_swap s w i j = (prop s w (i, j), set_nth j w (nth i s 0)) /\ k_ssd_swap s w i j = k_sd_swap s w i j) /\
+  (forall cand s, k_sd_wrkss cand s = complement cand s /\ k_ssd_wrkss cand s = complement cand s) /\
+  snd k_sd_draw = false /\
+  (forall ev wt cand k, ksort_select k_sort_key k_sort_lo k_sort_hi ev wt cand k = sort_select ev cand k /\
+                        ksort_select k_ssd_key k_ssd_lo k_ssd_hi ev wt cand k = sort_select ev cand k) /\
+  (forall ev cand k, sort_calls ev cand k = k_sort_singles cand ++ [sort_select ev cand k]) /\
+  (forall cand ix, k_sort_pick cand ix = sample cand ix /\ k_ssd_pick cand ix = sample cand ix) /\
+  (forall o1 c1 o2 c2, k_dominates o1 c1 o2 c2 = dominates_m o1 c1 o2 c2) /\
+  (forall a b, k_rex_mab a b = rex_mab a b /\ k_rex_mba a b = rex_mab b a) /\
+  (forall a b mex, rex_cross a b mex =
+     let mab := k_rex_mab a b in let mba := k_rex_mba a b in
+     let e := k_rex_exchange (compress mab a) (compress mba b) mex in (scatter mab a (fst e), scatter mba b (snd e))) /\
+  (forall c d, k_rex_nex (Z.of_nat c) (Z.of_nat d) = Z.of_nat (rex_nex c d)) /\ (forall c, k_rex_randint c = (1, c)) /\
+  (forall a b, k_rex_clen (Z.of_nat (length (compress (k_rex_mab a b) a))) (Z.of_nat (length (compress (k_rex_mba a b) b))) = Z.of_nat (rex_clen a b)) /\
+  (forall ss x u p chosen, rex_mut ss x u p chosen =
+     let mab := k_mut_mab x ss in let mba := k_mut_mba x ss in
+     let ap := compress mab x in let bp := compress mba ss in
+     scatter mab x (scatter (map (fun v => k_mut_mex v p) u) ap (map (fun i => nth i bp 0) chosen))) /\
+  (forall ev ss x li ai draw, mutA_hillclimb ev ss x li ai draw =
+     let al := k_mutA_alleles ss x in
+     if k_mutA_guard (Z.of_nat (length al)) then x
+     else let T := k_mutA_trials x al li ai in nth (mutA_sel (map (fun t => e_obj (ev t)) T) draw) T x) /\
+  (forall ev ss x li ai draw, mutB_hillclimb ev ss x li ai draw =
+     let al := k_mutB_alleles ss x in
+     if k_mutB_guard (Z.of_nat (length al)) then x
+     else let T := k_mutB_trials x al li ai in nth (mutB_sel (map (fun t => e_obj (ev t)) T) draw) T x) /\
+  (forall nobj F draw, (draw < nobj)%nat -> mutB_sel F draw = nth (nth draw (k_mutB_minix nobj F (front_ix F)) O) (front_ix F) O) /\
+  (forall nl na nh, k_mutA_tiled nl na nh = ((nl, nh), (na, nh)) /\ k_mutB_tiled nl na nh = ((nl, nh), (na, nh))) /\
+  (forall nl o, k_mutA_nhcstep nl o = match o with None => nl | Some v => v end /\ k_mutB_nhcstep nl o = k_mutA_nhcstep nl o) /\
+  (forall qs, k_isbx_round qs = int_round qs /\ k_ipm_round qs = int_round qs).
+Proof.
+  split; [exact k_sd_accept_model|]. split; [exact k_ssd_accept_model|]. split; [exact k_sd_scores_model|]. split; [exact k_ssd_scores_model|].
+  split; [intros; split; reflexivity|]. split; [intros; split; reflexivity|]. split; [reflexivity|].
+  split; [intros; split; [apply k_sort_select_model | apply k_ssd_select_model]|]. split; [exact k_sort_calls_model|]. split; [exact k_pick_model|].
+  split; [exact k_dominates_model|]. split; [exact k_rex_masks_model|]. split; [exact k_rex_cross_model|]. split; [exact k_rex_nex_model|].
+  split; [exact k_rex_randint_model|]. split; [exact k_rex_clen_model|]. split; [exact k_mut_model|]. split; [exact k_mutA_hillclimb_model|].
+  split; [exact k_mutB_hillclimb_model|]. split; [exact k_mutB_minix_model|]. split; [exact k_mutAB_tiled_model|]. split; [exact k_mutAB_nhcstep_model|].
+  exact k_round_model.
+Qed.
+Print Assumptions C06_kernel_is_model.
+
+(** the climbers' loops RE-ASSEMBLED from the generated statements, with the state the source keeps (best_score and best_cv are
+    stored by the accepting branches, gbest_* updated after every scan), compute exactly the model's climber; and the stored
+    score / violation handed to the caller (miscout) are those of the returned decision.  A branch that forgets to refresh
+    best_score, an exchange of the wrong positions, an update of gbest_* from the wrong variable break this theorem. *)
+Theorem C06_kernel_climber_refines : forall (ev : list Z -> evalT) (fuel : nat) (cand start : list Z),
+  (gabs (sd_machine ev fuel cand start) = climb_from ev fuel cand start /\
+   forall s' w' g', sd_machine ev fuel cand start = Some (s', w', g') -> g_ev g' = ev s' /\ g_score g' = score (ev s') /\ g_cv g' = cv (ev s')) /\
+  (gabs (ssd_machine ev fuel cand start) = climb_from ev fuel cand start /\
+   forall s' w' g', ssd_machine ev fuel cand start = Some (s', w', g') -> g_ev g' = ev s' /\ g_score g' = score (ev s') /\ g_cv g' = cv (ev s')).
+Proof. intros. split; [apply sd_machine_refines | apply ssd_machine_refines]. Qed.
+Print Assumptions C06_kernel_climber_refines.
+
+(** ... hence the full result clause holds of the regenerated loops (start drawn without replacement / start = the slice of the
+    ranking computed by the generated key and bounds) *)
+Theorem C06_kernel_climber_result : forall (ev : list Z -> evalT) (fuel : nat) (cand : list Z) (ix : list nat) (k : nat) s' w' g',
+  NoDup cand -> NoDup ix -> (forall i, In i ix -> (i < length cand)%nat) -> length ix = k ->
+  sd_machine ev fuel cand (sample cand ix) = Some (s', w', g') ->
+  climber_result ev cand k (sample cand ix) (s', w', g_ev g') /\ g_score g' = score (ev s') /\ g_cv g' = cv (ev s').
+Proof. exact sd_machine_result. Qed.
+Print Assumptions C06_kernel_climber_result.
+
+Theorem C06_kernel_sorting_climber_result : forall (ev : list Z -> evalT) (wt : Z) (fuel : nat) (cand : list Z) (k : nat) s' w' g',
+  NoDup cand -> (k <= length cand)%nat ->
+  ssd_machine ev fuel cand (ksort_select k_ssd_key k_ssd_lo k_ssd_hi ev wt cand k) = Some (s', w', g') ->
+  climber_result ev cand k (sort_select ev cand k) (s', w', g_ev g') /\ g_score g' = score (ev s') /\ g_cv g' = cv (ev s').
+Proof. exact ssd_machine_result. Qed.
+Print Assumptions C06_kernel_sorting_climber_result.
+
+(** the exchange statement of the source, applied twice, restores both arrays: every proposal of a scan is evaluated on the
+    same (solution, pool) pair *)
+Theorem C06_kernel_exchange_involutive : forall (s w : list Z) (i j : nat), (i < length s)%nat -> (j < length w)%nat ->
+  k_sd_swap (fst (k_sd_swap s w i j)) (snd (k_sd_swap s w i j)) i j = (s, w) /\
+  k_ssd_swap (fst (k_ssd_swap s w i j)) (snd (k_ssd_swap s w i j)) i j = (s, w).
+Proof. intros. split; now apply k_sd_swap_involutive. Qed.
+Print Assumptions C06_kernel_exchange_involutive.
+
+(** the sorting optimiser as the source ranks and slices (generated key expression and slice bounds): feasible, and optimal
+    for every separable objective whatever the objective weight [wt] is (the key must not be multiplied by it again) *)
+Theorem C06_kernel_sorting : forall (ev : list Z -> evalT) (wt : Z) (cand : list Z) (k : nat), NoDup cand -> (k <= length cand)%nat ->
+  let s := ksort_select k_sort_key k_sort_lo k_sort_hi ev wt cand k in
+  feasible cand k s /\
+  forall w, (forall x, e_obj (ev x) = [sumZ (map w x)]) -> forall y, feasible cand k y -> score (ev s) <= score (ev y).
+Proof. exact k_sorting_spec. Qed.
+Print Assumptions C06_kernel_sorting.
+
+(** pymoo_addon.dominates, as coded, is a strict partial order on (objective vector, violation) pairs: a population filtered
+    with it cannot contain two members that dominate each other *)
+Theorem C06_kernel_dominates_strict_order :
+  (forall o c, k_dominates o c o c = false) /\
+  (forall o1 c1 o2 c2, k_dominates o1 c1 o2 c2 = true -> k_dominates o2 c2 o1 c1 = false) /\
+  (forall o1 c1 o2 c2 o3 c3, k_dominates o1 c1 o2 c2 = true -> k_dominates o2 c2 o3 c3 = true -> k_dominates o1 c1 o3 c3 = true).
+Proof. split; [exact k_dominates_irrefl|]. split; [exact k_dominates_asym | exact k_dominates_trans]. Qed.
+Print Assumptions C06_kernel_dominates_strict_order.
+
+(** tiled_choice(a, size): the slices its loop writes and the tail tile [0, size) without gap or overlap, every tile is drawn
+    from range(a) without replacement, the tail has size mod a entries *)
+Theorem C06_kernel_tiled_choice_tiles : forall a size : Z, 0 < a -> 0 <= size ->
+  k_tc_lo a 0 = 0 /\ (forall i, k_tc_hi a i = k_tc_lo a (i + 1)) /\ (forall i, k_tc_hi a i - k_tc_lo a i = a) /\
+  k_tc_tail a (k_tc_ndiv a size) = k_tc_lo a (k_tc_ndiv a size) /\
+  k_tc_tail a (k_tc_ndiv a size) + k_tc_nrem a size = size /\ 0 <= k_tc_nrem a size < a /\ 0 <= k_tc_ndiv a size /\
+  k_tc_draws a (k_tc_nrem a size) = ((a, a, false), (a, k_tc_nrem a size, false)).
+Proof. exact k_tc_tiles. Qed.
+Print Assumptions C06_kernel_tiled_choice_tiles.
+
+(** the variation operators written with the generated masks / exchange / trial-row assignment preserve feasibility *)
+Theorem C06_kernel_crossover_feasible : forall (cand : list Z) (k : nat) (a b : list Z) (mex : list nat),
+  feasible cand k a -> feasible cand k b ->
+  let mab := k_rex_mab a b in let mba := k_rex_mba a b in
+  let e := k_rex_exchange (compress mab a) (compress mba b) mex in
+  feasible cand k (scatter mab a (fst e)) /\ feasible cand k (scatter mba b (snd e)).
+Proof. exact k_rex_feasible. Qed.
+Print Assumptions C06_kernel_crossover_feasible.
+
+Theorem C06_kernel_mutatorAB_feasible : forall (ev : list Z -> evalT) (ss x : list Z) (k : nat) (li ai : list nat) (draw : nat),
+  feasible ss k x -> (forall j, In j ai -> (j < length (k_mutA_alleles ss x))%nat) ->
+  feasible ss k (let al := k_mutA_alleles ss x in
+                 if k_mutA_guard (Z.of_nat (length al)) then x
+                 else let T := k_mutA_trials x al li ai in nth (mutA_sel (map (fun t => e_obj (ev t)) T) draw) T x) /\
+  feasible ss k (let al := k_mutB_alleles ss x in
+                 if k_mutB_guard (Z.of_nat (length al)) then x
+                 else let T := k_mutB_trials x al li ai in nth (mutB_sel (map (fun t => e_obj (ev t)) T) draw) T x).
+Proof. exact k_mutAB_feasible. Qed.
+Print Assumptions C06_kernel_mutatorAB_feasible.
+
+(** every one of the sixteen optimiser classes hands every keyword of the Solution constructor the value it must: the decision
+    matrix from X / the loop's solution, objectives from F, inequality violations from G, equality violations from H (never
+    crossed), the descriptive fields from the problem; one row per (class, keyword), none missing (table regenerated from the
+    current source; finite, checked by computation) *)
+Theorem C06_kernel_solution_fields :
+  (forall row, In row k_soln_fields -> soln_row_ok row = true) /\ soln_table_complete k_soln_fields = true.
+Proof. destruct k_soln_fields_ok as (A & B). split; [now apply forallb_forall | exact B]. Qed.
+Print Assumptions C06_kernel_solution_fields.
+
+(** *** scale covariance: weights far from 1 (2^-40 ... 2^20) change nothing.  If every violation is multiplied by a > 0 and every
+    score by b > 0, both climbers visit the same states and return the same decision and pool, and the sorting optimiser selects the
+    same members.  (An absolute tolerance in a comparison would break this law; the correspondence runs the model in units of the
+    weights' scale on the strength of it.) *)
+Theorem C06_climber_scale_covariant : forall (ev ev' : list Z -> evalT) (a b : Z) (fuel : nat) (cand start : list Z),
+  0 < a -> 0 < b -> (forall x, cv (ev' x) = a * cv (ev x)) -> (forall x, score (ev' x) = b * score (ev x)) ->
+  option_map fst (climb_from ev' fuel cand start) = option_map fst (climb_from ev fuel cand start).
+Proof. intros ev ev' a b fuel cand start Ha Hb Hcv Hsc. exact (climb_from_scale ev ev' a b Ha Hb Hcv Hsc fuel cand start). Qed.
+Print Assumptions C06_climber_scale_covariant.
+
+Theorem C06_sorting_scale_covariant : forall (ev ev' : list Z -> evalT) (b : Z) (cand : list Z) (k : nat),
+  0 < b -> (forall e, single_key ev' e = b * single_key ev e) -> sort_select ev' cand k = sort_select ev cand k.
+Proof. intros ev ev' b cand k Hb Hk. exact (sort_select_scale ev ev' b Hb Hk cand k). Qed.
+Print Assumptions C06_sorting_scale_covariant.
+
 (** non-vacuity: a concrete problem (objective = sum of the members, no constraints) meets the hypotheses of the
     theorems above, and the modelled optimisers return the expected answers on it *)
 Example C06_hyps_satisfiable :
@@ -185,7 +348,16 @@ Example C06_hyps_satisfiable :
   /\ (forall j, In j [0%nat; 1%nat] -> (j < length (complement [5; 1; 4; 2]%Z [5; 4]%Z))%nat)
   /\ (length [5; 1; 4; 2]%Z ^ 2 <= 16)%nat
   /\ incl [5; 1] [1; 5] /\ mutA_hillclimb ev [5; 1] [1; 5] [] [] 0 = [1; 5]
-  /\ [[6]; [6]] <> (@nil (list Z)) /\ front_ix [[6]; [6]] = [0%nat; 1%nat].
+  /\ [[6]; [6]] <> (@nil (list Z)) /\ front_ix [[6]; [6]] = [0%nat; 1%nat]
+  /\ sd_machine ev 16 [5; 1; 4; 2] (sample [5; 1; 4; 2] [0%nat; 2%nat]) = Some ([1; 2], [5; 4], mkG [3] [] [] 3 0)
+  /\ ssd_machine ev 16 [5; 1; 4; 2] (ksort_select k_ssd_key k_ssd_lo k_ssd_hi ev (-1) [5; 1; 4; 2] 2) = Some ([1; 2], [5; 4], mkG [3] [] [] 3 0)
+  /\ ksort_select k_sort_key k_sort_lo k_sort_hi ev (-1) [5; 1; 4; 2] 2 = [1; 2]
+  /\ k_dominates [1; 2] 0 [1; 3] 0 = true /\ k_dominates [5; 5] 1 [0; 0] 2 = true
+  /\ (0 < 3 /\ 0 <= 7 /\ k_tc_ndiv 3 7 = 2 /\ k_tc_nrem 3 7 = 1)
+  /\ (1 < length [5; 4]%Z)%nat /\ (0 < length [1; 2]%Z)%nat
+  /\ (let ev' := fun x : list Z => ([4 * sumZ x], @nil Z, @nil Z) in
+      0 < 7 /\ 0 < 4 /\ (forall x, cv (ev' x) = 7 * cv (ev x)) /\ (forall x, score (ev' x) = 4 * score (ev x)) /\
+      (forall e, single_key ev' e = 4 * single_key ev e)).
 Proof.
   cbn zeta.
   assert (N4 : NoDup [5; 1; 4; 2]) by (repeat (constructor; [cbn; intuition lia|]); constructor).
@@ -197,5 +369,8 @@ Proof.
   split; [reflexivity|]. split; [reflexivity|]. split; [reflexivity|].
   split; [repeat constructor; cbn; discriminate|]. split; [reflexivity|]. split; [reflexivity|].
   split; [intros i Hi; cbn in *; intuition lia|]. split; [intros j Hj; cbn in *; intuition lia|]. split; [cbn; lia|].
-  split; [intros z Hz; cbn in *; intuition lia|]. split; [reflexivity|]. split; [discriminate | reflexivity].
+  split; [intros z Hz; cbn in *; intuition lia|]. split; [reflexivity|]. split; [discriminate|]. split; [reflexivity|].
+  split; [reflexivity|]. split; [reflexivity|]. split; [reflexivity|]. split; [reflexivity|]. split; [reflexivity|].
+  split; [repeat split; try reflexivity; lia|]. split; [cbn; lia|]. split; [cbn; lia|].
+  repeat split; try lia; intros; unfold cv, score, single_key, e_obj, e_ineq, e_eq; cbn [fst snd sumZ fold_right nth]; try rewrite !Z.add_0_r; try lia.
 Qed.
